@@ -4,6 +4,7 @@ line per scenario.  Imports executable models only (no proofs, no Mathlib), so
 that it links as a native executable.
 -/
 import Compress.Drv.XFlateReader
+import Compress.Drv.Meta
 
 open Compress.Util Compress.Drv
 
@@ -17,6 +18,9 @@ def processLine (line : String) : String :=
     let out :=
       match kind with
       | "xr" => handleXr kv
+      | "menc" => handleMenc kv
+      | "mdec" => handleMdec kv
+      | "mrs" => handleMrs kv
       | _ => "bad-kind"
     s!"{id} {out}"
 
